@@ -25,6 +25,8 @@ def run(P, R, L):
     K.grd18_short_reads(P, R, L)
     R.clause("VERD-1", "a damaged table ends a lookup with its error: Version::get never skips it in favour of an older value in a deeper level")
     K.verd1(P, R, L, what=("version", "table"))
+    R.clause("ERR-4", "an error that cut next/prev short is parked and handed on through status() by every wrapping iterator, and MergingIterator::get_error includes it")
+    K.err4_status_chain(P, R, L)
     R.clause("ERR-3", "a source that could not be positioned (table cannot be opened / block cannot be read) is reported by the merging "
              "iterator's seek methods, not silently dropped from a scan")
     K.err3_merge_seek_reports(P, R, L)
